@@ -98,9 +98,10 @@ class ModbusClientProtocol(protocol.Protocol,
 
         :param data: The data returned from the server
         """
-        unit = self.framer.decode_data(data).get("unit", 0)
+        # replies are matched to requests by transaction id; a read may hold
+        # replies from several units, so none of them is filtered out here
         self.framer.processIncomingPacket(data, self._handleResponse,
-                                          unit=unit)
+                                          unit=0)
 
     def execute(self, request):
         """ 
